@@ -380,9 +380,10 @@ fn avp_for_blocks(rng: &mut Rng, blocks: usize, exact_multiple: bool) -> (Value,
 }
 
 pub fn suite_hide(out: &mut Out, tier: &str, rng: &mut Rng) {
-    let block_counts: &[usize] = if tier == "thorough" { &[1, 2, 3, 4, 5, 6, 7, 8, 16, 32, 63] } else { &[1, 2, 3, 4, 8] };
+    let all_blocks: Vec<usize> = (1..=64).collect();
+    let block_counts: &[usize] = if tier == "thorough" { &all_blocks } else { &[1, 2, 3, 4, 8] };
     for &b in block_counts {
-        for rep in 0..counts(tier, 3, 12) {
+        for rep in 0..counts(tier, 3, 6) {
             let (a, lp) = avp_for_blocks(rng, b, rep % 2 == 0);
             out.emit(json!({"op": "hide", "v": a, "secret": bytes_json(&secret_of(rng)), "rv": bytes_json(&rng.bytes(4)),
                             "lp": bytes_json(&lp), "ap": bytes_json(&rng.bytes(16))}));
@@ -511,7 +512,7 @@ pub fn suite_reveal(out: &mut Out, tier: &str, rng: &mut Rng) {
         }
     }
     // (a) arbitrary octets under arbitrary keys; (c) empty and misaligned values; (d) non-hidden
-    let n = counts(tier, 150, 6000);
+    let n = counts(tier, 150, 15000);
     for _ in 0..n {
         let t = *rng.pick(&types);
         let len = match rng.below(8) {
@@ -532,7 +533,7 @@ pub fn suite_reveal(out: &mut Out, tier: &str, rng: &mut Rng) {
 pub fn suite_hide_reveal(out: &mut Out, tier: &str, rng: &mut Rng) {
     // all 39 kinds
     for ki in 0..KINDS.len() {
-        for rep in 0..counts(tier, 1, 6) {
+        for rep in 0..counts(tier, 1, 16) {
             let a = gen_avp_kind(rng, ki, if rep == 0 { 12 } else { 60 });
             let lp = rng.rbytes(0, 20);
             out.emit(json!({"op": "hide_reveal", "v": a, "secret": bytes_json(&secret_of(rng)), "rv": bytes_json(&rng.bytes(4)),
@@ -556,6 +557,17 @@ pub fn suite_hide_reveal(out: &mut Out, tier: &str, rng: &mut Rng) {
         let lp = rng.rbytes(0, 5);
         out.emit(json!({"op": "hide_reveal", "v": host(n, rng), "secret": bytes_json(&secret_of(rng)), "rv": bytes_json(&rng.bytes(4)),
                         "lp": bytes_json(&lp), "ap": bytes_json(&rng.bytes(16))}));
+    }
+    // original value lengths across the whole range (thorough: every one), and every length-padding size 0..=40
+    let step = if tier == "thorough" { 1 } else { 37 };
+    for n in (1usize..=1017).step_by(step) {
+        out.emit(json!({"op": "hide_reveal", "v": host(n, rng), "secret": bytes_json(&secret_of(rng)), "rv": bytes_json(&rng.bytes(4)),
+                        "lp": bytes_json(&rng.rbytes(0, 3)), "ap": bytes_json(&rng.bytes(16))}));
+    }
+    for lpn in 0usize..=40 {
+        let ki = rng.below(KINDS.len() as u64) as usize;
+        out.emit(json!({"op": "hide_reveal", "v": gen_avp_kind(rng, ki, 9), "secret": bytes_json(&secret_of(rng)), "rv": bytes_json(&rng.bytes(4)),
+                        "lp": bytes_json(&rng.bytes(lpn)), "ap": bytes_json(&rng.bytes(16))}));
     }
     // hidden stays hidden
     out.emit(json!({"op": "hide_reveal", "v": gen_hidden(rng, 32), "secret": [7], "rv": [1, 2, 3, 4], "lp": [], "ap": bytes_json(&[0u8; 16])}));
